@@ -283,6 +283,25 @@ def run_tree(case):
             fails.append(fail(f"copy:{label}-not-equal", case, True, (eq(c, d), eq(d, c))))
         elif d.to_ical() != ical:
             fails.append(fail(f"copy:{label}-serialises-differently", case, ical, d.to_ical()))
+    # the same tree read from text that writes BEGIN/END component names in lower / mixed case (RFC: case-insensitive):
+    # equal to the tree built through the API, and walk(name) finds the same nodes
+    import re as _re
+    for how in (bytes.lower, bytes.title):
+        recased = _re.sub(rb"(?m)^(BEGIN|END):([^\r\n]+)", lambda m: m.group(1) + b":" + how(m.group(2)), ical)
+        try:
+            d = Component.from_ical(recased)
+        except Exception as e:  # noqa: BLE001
+            fails.append(fail("parse-of-recased-component-names-raises", case + (how.__name__,), "a tree", f"{type(e).__name__}: {e}"))
+            continue
+        trans += 1
+        if eq(c, d) is not True or eq(d, c) is not True:
+            fails.append(fail("tree-parsed-from-recased-names-not-equal", case + (how.__name__,), True, (eq(c, d), eq(d, c))))
+        for kind in KINDS:
+            want_n = sum(1 for x in nodes if x.name == kind)
+            for variant in (kind, kind.lower()):
+                if len(d.walk(variant)) != want_n:
+                    fails.append(fail("walk(name)-on-tree-parsed-from-recased-names", case + (how.__name__, variant), want_n, len(d.walk(variant))))
+                    break
     return {"state": ("tree", t), "trans": trans, "nontrivial": len(nodes) >= 2, "fails": fails,
             "outcome": "ok" if not fails else "FAIL", "extra": {"perturbations": npert}}
 
@@ -448,7 +467,7 @@ def run(ctx):
     ctx.rule = (f"E-enum: all ordered labelled trees with <= {n} nodes over 7 kinds (+ chains/combs of depth 5-6); per tree: "
                 "walk/walk(name x 3 cases)/walk(select)/accessors vs reference pre-order, reflexivity, non-component "
                 "comparisons, all permutations of subcomponents (<=4) at every node, property insertion order and name case, "
-                "every single perturbation, deepcopy/pickle(2..5)/parse copies; all ordered pairs of trees with <= 3 nodes "
+                "every single perturbation, deepcopy/pickle(2..5)/parse copies, parse of the serialisation with component names in lower / title case (equal, same walk(name) counts); all ordered pairs of trees with <= 3 nodes "
                 "(742^2) vs the reference multiset equality; zone-carrying calendars (zoneinfo, pytz, dateutil, VTIMEZONE-"
                 "defined) x both providers; sibling multisets (<= 3/4 of 7 children sharing kind/UID but differing in content) in every order and against every other multiset. non-trivial = tree with >= 2 nodes / every pair.")
     ctx.bounds = {"max_nodes": n, "kinds": KINDS, "pair_nodes": 3}
